@@ -238,6 +238,11 @@ def replay_view(at: str, served_head: str, twin: bool = False, real: bool = Fals
         umap = cs.unspent_transaction_outs_by_hash[blk.hash()]
         if not _consistent(W.env, umap, view, W.keys):
             return False
+        # asked again, and asked for an ancestor AFTER its descendant: same rule
+        for later in (blk, W.R):
+            v2 = cs.public_key_balances_by_hash[later.hash()]
+            if not _consistent(W.env, cs.unspent_transaction_outs_by_hash[later.hash()], v2, W.keys):
+                return False
         if at == served_head:
             wallet = wl.Wallet({W.keys[0].public_key: b"", W.keys[2].public_key: b"", bytes([9]) * 64: b""},
                                [W.keys[2].public_key, bytes([9]) * 64], {W.keys[0].public_key: "x"})
@@ -310,6 +315,11 @@ def histories(parents_tail: Tuple[int, ...], mask: int, twin: bool = False, real
         if twin:
             return swap_a == swap_b
         a, b = res
+        # on the second state the views are asked for newest block first (a descendant before its ancestors), on the first
+        # one oldest first: the answer may not depend on what was asked before
+        views_b = {}
+        for i in reversed(range(n)):
+            views_b[i] = b.public_key_balances_by_hash[blocks[i].hash()]
         for i in range(n):
             hsh = blocks[i].hash()
             ia = [((k.hash, k.index), v.value) for (k, v) in a.unspent_transaction_outs_by_hash[hsh].items()]
@@ -326,7 +336,7 @@ def histories(parents_tail: Tuple[int, ...], mask: int, twin: bool = False, real
             if sorted(ia) != sorted(((k, v.value) for (k, v) in cur)):
                 return False
             ba = a.public_key_balances_by_hash[hsh]
-            bb = b.public_key_balances_by_hash[hsh]
+            bb = views_b[i]
             if ba[key].value != bb[key].value or ba[key].value != sum(v for (_, v) in ia):
                 return False
             # references listed = exactly the unspent outputs (all pay the one key here)
